@@ -22,7 +22,8 @@ def sched_model(rc, rm):
 
 SCHED_QUICK = [sched_model(1, 1), sched_model(4, 1), sched_model(7, 16)]
 SCHED_THOROUGH = [sched_model(1, 5), sched_model(2, 2), sched_model(5, 4), sched_model(10, 32)]
-MODELS_THOROUGH_EXTRA = {"C06": SCHED_THOROUGH, "C11": SCHED_THOROUGH}
+MODELS_THOROUGH_EXTRA = {"C06": SCHED_THOROUGH, "C11": SCHED_THOROUGH,
+                         "C07": [("MC_StunClient.tla", "MC_StunClient_st_big.cfg", ("SendRequest", "Recv", "OnTimeout"))]}
 MODELS = {
     "C03": [M_LT],
     "C05": [M_REL, M_UNREL, M_ST_REL],
@@ -65,6 +66,78 @@ PLANS = {
 
 LEVEL_NOTE = {
 }
+
+
+# spec -> code: TLC simulation of the design model with the faithful constants (microsecond ticks,
+# Rc = 7, Rm = 16, RTO 500 ms) exports behaviours; drive-client mbt replays them on the real client
+SIMS = {
+    "unrel": ("SIM_StunClient_unrel.cfg", {"reliable": False, "rto": 500000, "gran": 1000, "rm": 16, "rc": 7,
+                                           "mech": "none", "preset": "none", "fp": False, "max_tx": 3, "timeout": 5000000}),
+    "rel_fp": ("SIM_StunClient_rel_fp.cfg", {"reliable": True, "rto": 500000, "gran": 1000, "rm": 16, "rc": 7,
+                                             "mech": "none", "preset": "none", "fp": True, "max_tx": 2, "timeout": 5000000}),
+    "st": ("SIM_StunClient_st.cfg", {"reliable": False, "rto": 500000, "gran": 1000, "rm": 16, "rc": 7,
+                                     "mech": "st", "preset": "none", "fp": False, "max_tx": 3, "timeout": 5000000}),
+    "st_rel": ("SIM_StunClient_st_rel.cfg", {"reliable": True, "rto": 500000, "gran": 1000, "rm": 16, "rc": 7,
+                                             "mech": "st", "preset": "sha", "fp": True, "max_tx": 2, "timeout": 5000000}),
+}
+MBT = {"C05": ["unrel", "rel_fp", "st"], "C06": ["unrel", "rel_fp"], "C07": ["st", "st_rel"],
+       "C10": ["rel_fp", "st_rel"], "C11": ["unrel", "rel_fp"], "C12": ["unrel", "st"], "C13": ["st", "unrel"],
+       "C15": ["unrel"], "C17": ["unrel", "st", "st_rel"]}
+
+
+def mbt(name, tier, seed, wd, bindir):
+    """returns (recdir, stats) - behaviours generated by TLC, replayed, predictions compared"""
+    import re
+    cfg, dcfg = SIMS[name]
+    n = 120 if tier == "quick" else 4000
+    r = tlc_model("MC_StunClient.tla", cfg, wd, workers=1, timeout=1500,
+                  simulate="num=%d" % n, extra="-depth 25 -seed %d" % (seed % 100000))
+    if r["violated"]:
+        raise ToolError("simulation of %s violates %s" % (cfg, r["violated"]))
+    scheds = []
+    for line in r["out"].splitlines():
+        line = line.strip()
+        if line.startswith('"SCHED '):
+            scheds.append(json.loads(line)[len("SCHED "):])
+    if not scheds:
+        raise ToolError("TLC simulation exported no behaviour for " + cfg)
+    sf = os.path.join(wd, "mbt-%s.ndjson" % name)
+    with open(sf, "w") as f:
+        f.write("\n".join(scheds) + "\n")
+    out = os.path.join(wd, "rec-mbt-%s" % name)
+    sh("%s/drive-client mbt --sched %s --cfg '%s' --out %s" % (bindir, sf, json.dumps(dcfg), out), timeout=1800)
+    pred = {}
+    with open(os.path.join(out, "pred.ndjson")) as f:
+        for l in f:
+            o = json.loads(l)
+            pred[o["tr"]] = o["pred"]
+    steps = div = 0
+    first = []
+    cur, k = None, 0
+    with open(os.path.join(out, "trace.ndjson")) as f:
+        for l in f:
+            o = json.loads(l)
+            if o["op"] == "reset":
+                cur, k = o["tr"], 0
+                continue
+            ps = pred.get(cur, [])
+            if k < len(ps):
+                p = ps[k]
+                oev = sorted((e["k"], e.get("why") if e["k"] == "failed" else
+                              (e.get("cls") if e["k"] == "recvd" else "")) for e in o["ev"])
+                pev = sorted(tuple(x) for x in p["evk"])
+                steps += 1
+                if p["res"] != o["res"] or pev != oev:
+                    div += 1
+                    if len(first) < 3:
+                        first.append({"tr": cur, "step": k, "op": o["op"], "predicted": p,
+                                      "observed": {"res": o["res"], "ev": oev}})
+            k += 1
+    if div:
+        log("[mbt] %s: %d of %d replayed steps diverge from the design model's prediction (advisory): %s"
+            % (name, div, steps, json.dumps(first)[:600]))
+    return out, {"sim": name, "behaviours": len(scheds), "steps": steps,
+                 "conformance_divergences": div, "first_divergences": first}
 
 
 def record(bindir, wd, profile, seed, traces, steps):
@@ -187,6 +260,7 @@ def run(prop, tier, seed, replay=None, extra_cov=None):
     bindir = build_harness()
     violations = []
     known_hits = []
+    mbt_stats = []
     if replay:
         rep = json.load(open(replay))
         sf = os.path.join(wd, "replay-steps.ndjson")
@@ -204,6 +278,12 @@ def run(prop, tier, seed, replay=None, extra_cov=None):
         recs = []
         for i, (profile, traces, steps) in enumerate(PLANS[prop][tier]):
             recs.append(record(bindir, wd, profile, seed + i, traces, steps))
+        mbt_stats = []
+        if not os.environ.get("VERIF_NO_MODEL"):
+            for name in MBT.get(prop, []):
+                out, st = mbt(name, tier, seed, wd, bindir)
+                recs.append((out, st))
+                mbt_stats.append(st)
     total_traces = total_lines = 0
     distinct = set()
     samples = []
@@ -261,6 +341,7 @@ def run(prop, tier, seed, replay=None, extra_cov=None):
             "models": minfo,
             "plan": [{"profile": p, "traces": n, "max_steps": s} for p, n, s in PLANS[prop][tier]],
             "known_findings_hit": sorted(set(known_hits)),
+            "spec_to_code_replays": mbt_stats,
             "exhaustive": False,
             **(extra_cov or {}),
         }, time.time() - t0, len(violations),
